@@ -56,6 +56,37 @@ class HarnessError(Exception):
     pass
 
 
+class CaseTimeout(BaseException):
+    """a single case did not finish: reported as a harness problem (exit 2), never as a violation"""
+
+
+CASE_TIMEOUT_S = int(os.environ.get("VERIF_CASE_TIMEOUT", "300"))
+
+
+class _Watchdog:
+    """SIGALRM based per-case watchdog (main thread of the shard process only)"""
+
+    def __enter__(self):
+        import signal
+        self.ok = hasattr(signal, "SIGALRM")
+        if self.ok:
+            def handler(signum, frame):
+                raise CaseTimeout("case did not finish within %d s (possible non-termination)" % CASE_TIMEOUT_S)
+            try:
+                self.old = signal.signal(signal.SIGALRM, handler)
+                signal.alarm(CASE_TIMEOUT_S)
+            except ValueError:
+                self.ok = False
+        return self
+
+    def __exit__(self, *a):
+        import signal
+        if self.ok:
+            signal.alarm(0)
+            signal.signal(signal.SIGALRM, self.old)
+        return False
+
+
 def load_known(prop_id):
     known, fixed = [], []
     path = os.path.join(VERIF, "known_findings.jsonl")
@@ -151,8 +182,15 @@ class Ctx:
         holder = {}
 
         def wrapped(case):
+            if holder.get("timeout"):
+                return  # a case hung: do not try to shrink it
             try:
-                body(case)
+                with _Watchdog():
+                    body(case)
+            except CaseTimeout as e:
+                holder["harness"] = (case, "CaseTimeout: %s" % e)
+                holder["timeout"] = True
+                raise HarnessError(str(e))
             except Unlisted as e:
                 holder["last"] = (case, e.violations)
                 raise
@@ -171,6 +209,8 @@ class Ctx:
         test = hypothesis.seed(self.derived_seed(salt))(st(given(strategy)(wrapped)))
         try:
             test()
+            if holder.get("timeout"):
+                self.harness_error = "case=%s\n%s" % (canon(holder["harness"][0])[:2000], holder["harness"][1])
         except Unlisted:
             case, vs = holder["last"]
             for v in vs:
@@ -179,7 +219,9 @@ class Ctx:
         except BaseException as e:
             if isinstance(e, (KeyboardInterrupt, SystemExit)):
                 raise
-            if "last" in holder and "harness" not in holder:
+            if holder.get("timeout"):
+                self.harness_error = "case=%s\n%s" % (canon(holder["harness"][0])[:2000], holder["harness"][1])
+            elif "last" in holder and "harness" not in holder:
                 case, vs = holder["last"]
                 for v in vs:
                     v.case = case if v.case is None else v.case
@@ -194,7 +236,11 @@ class Ctx:
         best = {}
         for case in cases:
             try:
-                body(case)
+                with _Watchdog():
+                    body(case)
+            except CaseTimeout as e:
+                self.harness_error = "case=%s\nCaseTimeout: %s" % (canon(case)[:2000], e)
+                break
             except Unlisted as e:
                 for v in e.violations:
                     v.case = case if v.case is None else v.case
